@@ -224,6 +224,73 @@ def modCore (k : PairCtx) (x y : Int) : Except Err Int := do
   .ok (mkCD k.cd q)
 def mod (a b : DurTy) (x y : Int) : Except Err Int := do let k ← pairCtx a b; modCore k x y
 
+/-! ### duration and a tick count ([time.duration.nonmember]) -/
+
+/-- static context of `duration<Rep1, Period> op Rep2`: `CD = duration<common_type_t<Rep1, Rep2>, Period>`, the converting
+    constructor `CD(d)`, the scalar type `Rep2`.  (The constraint `is_convertible_v<Rep2 const&, common_type_t<Rep1, Rep2>>`
+    holds for every pair of builtin integer types; `Rep2` is not a specialisation of `duration`.) -/
+structure ScalarCtx where
+  cd : DurTy
+  k : CastCtx
+  rs : ITy
+  deriving Repr, BEq, DecidableEq, Inhabited
+
+def scalarCtx (d : DurTy) (rs : ITy) : Except Err ScalarCtx := do
+  let cd : DurTy := ⟨ITy.common d.rep rs, d.per⟩
+  let k ← castCtx cd d
+  .ok ⟨cd, k, rs⟩
+
+/-- `operator*(duration<Rep1, Period> const& d, Rep2 const& s)`: `CD(CD(d).count() * s)`; the product is evaluated in the
+    type of `CR * Rep2` (usual arithmetic conversions), `CD(x)` converts it to `CR` -/
+def mulRepCore (k : ScalarCtx) (c s : Int) : Except Err Int := do
+  let l ← convertCore k.k c
+  let t := ITy.usual k.cd.rep k.rs
+  let p ← arith t (t.conv l * t.conv s)
+  .ok (k.cd.rep.conv p)
+def mulRep (d : DurTy) (rs : ITy) (c s : Int) : Except Err Int := do let k ← scalarCtx d rs; mulRepCore k c s
+
+/-- `operator*(Rep1 const& s, duration<Rep2, Period> const& d)`: `return d * s;` (the declared return type
+    `duration<common_type_t<Rep1, Rep2>, Period>` is the type of `d * s`: a copy) -/
+def repMul (rs : ITy) (d : DurTy) (s c : Int) : Except Err Int := mulRep d rs c s
+
+/-- `operator/(duration<Rep1, Period> const& d, Rep2 const& s)`: `CD(CD(d).count() / s)` -/
+def divRepCore (k : ScalarCtx) (c s : Int) : Except Err Int := do
+  let l ← convertCore k.k c
+  let t := ITy.usual k.cd.rep k.rs
+  let q ← cdiv t (t.conv l) (t.conv s)
+  .ok (k.cd.rep.conv q)
+def divRep (d : DurTy) (rs : ITy) (c s : Int) : Except Err Int := do let k ← scalarCtx d rs; divRepCore k c s
+
+/-- `operator%(duration<Rep1, Period> const& d, Rep2 const& s)`: `CD(CD(d).count() % s)` -/
+def modRepCore (k : ScalarCtx) (c s : Int) : Except Err Int := do
+  let l ← convertCore k.k c
+  let t := ITy.usual k.cd.rep k.rs
+  let q ← cmod t (t.conv l) (t.conv s)
+  .ok (k.cd.rep.conv q)
+def modRep (d : DurTy) (rs : ITy) (c s : Int) : Except Err Int := do let k ← scalarCtx d rs; modRepCore k c s
+
+/-! ### time_point and duration ([time.point.nonmember])
+
+A `time_point<Clock, Duration>` is its `time_since_epoch()`, a `Duration`; `CT(x)` is the constructor
+`time_point(duration const& d) : _d{d}` applied to a value that already has the type `CT::duration`
+(`common_type_t<Dur1, duration<Rep2, Period2>>` is the return type of the duration operator): a copy. -/
+
+/-- `operator+(time_point<Clock, Dur1> const& lhs, duration<Rep2, Period2> const& rhs)`: `CT(lhs.time_since_epoch() + rhs)` -/
+def tpPlusCore (k : PairCtx) (x y : Int) : Except Err Int := addCore k x y
+def tpPlus (a b : DurTy) (x y : Int) : Except Err Int := do let k ← pairCtx a b; tpPlusCore k x y
+
+/-- `operator+(duration<Rep1, Period1> const& lhs, time_point<Clock, Dur2> const& rhs)`: `return rhs + lhs;` -/
+def durPlusTp (a b : DurTy) (x y : Int) : Except Err Int := tpPlus b a y x
+
+/-- `operator-(time_point<Clock, Dur1> const& lhs, duration<Rep2, Period2> const& rhs)`: `CT(lhs.time_since_epoch() - rhs)` -/
+def tpMinusCore (k : PairCtx) (x y : Int) : Except Err Int := subCore k x y
+def tpMinus (a b : DurTy) (x y : Int) : Except Err Int := do let k ← pairCtx a b; tpMinusCore k x y
+
+/-- `operator-(time_point<Clock, Dur1> const& lhs, time_point<Clock, Dur2> const& rhs) -> common_type_t<Dur1, Dur2>`:
+    `lhs.time_since_epoch() - rhs.time_since_epoch()` -/
+def tpDiffCore (k : PairCtx) (x y : Int) : Except Err Int := subCore k x y
+def tpDiff (a b : DurTy) (x y : Int) : Except Err Int := do let k ← pairCtx a b; tpDiffCore k x y
+
 /-- `operator==`: `common_t(lhs).count() == common_t(rhs).count()` -/
 def eqCore (k : PairCtx) (x y : Int) : Except Err Bool := do
   let l ← convertCore k.ka x
